@@ -102,6 +102,7 @@ func rprop_dense_with_gradient(evalGradient DenseGradientF, x0 DenseFloat64Vecto
         break
       }
     }
+    copy(x1, x2)
     // evaluate stop criterion
     if (Norm(gradient_new) < epsilon.Value) {
       break;
@@ -117,7 +118,6 @@ func rprop_dense_with_gradient(evalGradient DenseGradientF, x0 DenseFloat64Vecto
         }
       }
     }
-    copy(x1, x2)
   }
   return x1, nil
 }
